@@ -334,6 +334,62 @@ func (e *Exec) registerLocal(ref, pc string, keys []string) {
 
 // nonEscaping: the object created by v (MakeSlice or Alloc) is only ever indexed, sliced,
 // measured or copied into/out of inside this function: no call, closure or heap cell sees it.
+// capturedReadOnly: a local variable cell that escapes only into closures which never store to it (they
+// load it, or pass it on to closures that only load it). Code outside this function cannot reach the
+// cell, the closures do not write it, so its content changes only through this function's own stores:
+// it survives calls with unknown effects.
+func capturedReadOnly(v ssa.Value, depth int) bool {
+	if depth > 4 {
+		return false
+	}
+	refs := v.Referrers()
+	if refs == nil {
+		return false
+	}
+	for _, r := range *refs {
+		switch x := r.(type) {
+		case *ssa.DebugRef, *ssa.UnOp:
+		case *ssa.Store:
+			if x.Addr != v {
+				return false
+			}
+		case *ssa.MakeClosure:
+			fn, ok := x.Fn.(*ssa.Function)
+			if !ok {
+				return false
+			}
+			for i, b := range x.Bindings {
+				if b != v {
+					continue
+				}
+				if i >= len(fn.FreeVars) {
+					return false
+				}
+				fv := fn.FreeVars[i]
+				frefs := fv.Referrers()
+				if frefs == nil {
+					continue
+				}
+				for _, fr := range *frefs {
+					switch y := fr.(type) {
+					case *ssa.DebugRef, *ssa.UnOp:
+					case *ssa.MakeClosure:
+						_ = y
+						if !capturedReadOnly(fv, depth+1) {
+							return false
+						}
+					default:
+						return false
+					}
+				}
+			}
+		default:
+			return false
+		}
+	}
+	return true
+}
+
 func nonEscaping(v ssa.Value, depth int) bool {
 	if depth > 6 {
 		return false
@@ -627,6 +683,13 @@ func (e *Exec) loadAddr(st *State, a *Addr) Val {
 		var terms []string
 		for k, s := range leafSorts(a.T) {
 			terms = append(terms, e.heapGet(st, fmt.Sprintf("%s#%d", a.Key, k), s))
+		}
+		// sentinel errors of the standard library (io.EOF, io.ErrUnexpectedEOF, ...) are non-nil
+		if len(terms) == 1 && scalarSort(a.T) == sIface && !strings.HasPrefix(a.Key, "G:"+modulePath) && !strings.Contains(strings.TrimPrefix(a.Key, "G:"), "/") {
+			if i := strings.LastIndex(a.Key, "."); i >= 0 && (strings.HasPrefix(a.Key[i+1:], "Err") || a.Key[i+1:] == "EOF") && e.L.immutableGlobalKey(a.Key+"#0") {
+				e.once("sentinel:"+a.Key, func() { e.flag("assumption: standard-library sentinel error " + a.Key[2:] + " is non-nil") })
+				e.assume(mkNot(mkEq(terms[0], "inil")))
+			}
 		}
 		return unflatten(a.T, &terms)
 	}
